@@ -691,3 +691,24 @@ def boundary_sample(solid, params_row, N, rng):
         keep = np.abs(margin(solid, P)) <= 1e-7
         pts.append(p[keep])
     return {var: np.concatenate(pts, axis=0)}
+
+
+def acceptance_floor(node, params_row, rng, n=600):
+    """Smallest acceptance rate of the rejection loops the library needs for this expression
+    (for every cut/intersection: share of the first operand that survives), estimated with
+    the reference sampler.  Used to tell a slow-but-legitimate rejection loop from a hang."""
+    worst = 1.0
+    try:
+        if node["k"] in ("cut", "inter") and not is_boundary(node):
+            pts = uniform_sample(node["a"], params_row, n, rng)
+            m = len(next(iter(pts.values())))
+            P = dict(pts)
+            for v, val in params_row.items():
+                P[v] = np.repeat(np.asarray(val, float).reshape(1, -1), m, axis=0)
+            worst = min(worst, float(np.mean(margin(node, P) >= 0)))
+        for c in children(node):
+            if c["k"] not in ("iv",) or True:
+                worst = min(worst, acceptance_floor(c, params_row, rng, n))
+    except Exception:
+        return 0.0
+    return worst
